@@ -2,6 +2,7 @@ package main
 
 import (
 	"fmt"
+	"go/constant"
 	"go/token"
 	"go/types"
 	"strings"
@@ -606,7 +607,25 @@ func ruleCaptureIndex(c *Ctx) {
 			}
 			// arg = idx + al.K must be <= LEN - 1
 			okc := have && best+al.K <= -1
-			c.check(okc, R, fmt.Sprintf("recursiveVM:%s#%d", rd.Name(), n), p.ipos(cl), "the index is below CaptureLength() on this path", fmt.Sprintf("recursiveVM reads capture record idx%+d where the path only establishes idx <= CaptureLength()%+d: a back-reference to the capture it sits in ('(%%1)', '(a)(b%%2)') reads the end slot that does not exist yet and panics with 'index out of range' instead of raising 'invalid capture index'", al.K, best))
+			how := "the index is below CaptureLength() on this path"
+			if !okc && have && al.K == 1 && best <= -1 {
+				// the end slot of a capture whose start slot exists: it exists too when the capture is closed,
+				// i.e. when the path has tested the open-capture mark (F87) and ruled out a position capture
+				markTested, notPos := false, false
+				for _, cd := range g.CondsAtInstr(cl) {
+					if b, ok := cd.V.(*ssa.BinOp); ok && (isFieldRead(b.X, "Operand2") || isFieldRead(b.Y, "Operand2")) {
+						markTested = true
+					}
+					if pc, ok := cd.V.(*ssa.Call); ok && !cd.Sense && pc.Call.StaticCallee() == p.Fn("pm", "(*MatchData).IsPosCapture") {
+						notPos = true
+					}
+				}
+				if markTested && notPos {
+					okc = true
+					how = "the start slot is in range and the path has ruled out an open capture (mark) and a position capture: the end slot was written by the closing save"
+				}
+			}
+			c.check(okc, R, fmt.Sprintf("recursiveVM:%s#%d", rd.Name(), n), p.ipos(cl), how, fmt.Sprintf("recursiveVM reads capture record idx%+d where the path only establishes idx <= CaptureLength()%+d: a back-reference to the capture it sits in ('(%%1)', '(a)(b%%2)') reads the end slot that does not exist yet and panics with 'index out of range' instead of raising 'invalid capture index'", al.K, best))
 		}
 	}
 	if n == 0 {
@@ -1551,4 +1570,202 @@ func stdCallV(v ssa.Value) (string, string, bool) {
 		return "", "", false
 	}
 	return stdCall(in)
+}
+
+// rulePatternSets: F87. (a) A range inside a character set has two plain characters as its ends: every
+// rangeClass that the pattern parser builds gets *charClass values in Begin and End ("[%a-z]" is the
+// class %a, '-' and 'z'; a range whose end is a class matches nothing). (b) A back-reference written
+// inside the capture it names refers to an unfinished capture: the compiler marks it (from its set of
+// open captures) and the matcher raises when it reaches a marked reference — deciding it from the
+// recorded positions cannot work for a capture that starts at offset 0.
+func rulePatternSets(c *Ctx) {
+	const R = "R14-index"
+	p := c.P
+	pmPkg := p.Pkg("pm")
+	if pmPkg == nil {
+		c.und(R, "pm", "-", "package pm not loaded")
+		return
+	}
+	n, okc := 0, true
+	var where ssa.Instruction
+	for _, fn := range p.srcFuncs {
+		if fn.Pkg == nil || fn.Pkg.Pkg != pmPkg.Types {
+			continue
+		}
+		allInstrs(fn, func(in ssa.Instruction) {
+			st, ok := in.(*ssa.Store)
+			if !ok {
+				return
+			}
+			fa, ok := st.Addr.(*ssa.FieldAddr)
+			if !ok {
+				return
+			}
+			if typeName(fa.X.Type()) != "pm.rangeClass" {
+				return
+			}
+			n++
+			v := stripMI(st.Val)
+			if typeName(v.Type()) != "pm.charClass" {
+				okc = false
+				if where == nil {
+					where = in
+				}
+			}
+		})
+	}
+	pos := "-"
+	if where != nil {
+		pos = p.ipos(where)
+	}
+	c.Sites++
+	c.check(n >= 2 && okc, R, "rangeClass:ends-are-plain-characters", pos, fmt.Sprintf("%d stores into a range's ends, all of them *charClass values", n), "the pattern parser builds a range whose end is not a plain character (taken back from the list of classes parsed so far): in '[%a-z]' the class %a becomes the lower end of a range that matches nothing, and in '[a-c-e]' the finished range a-c does")
+
+	cp := c.need(R, "pm", "compilePattern")
+	vm := c.need(R, "pm", "recursiveVM")
+	if cp == nil || vm == nil {
+		return
+	}
+	// compiler side: the opNumber instruction's second operand depends on a lookup in the open set
+	marks := false
+	allInstrs(cp, func(in ssa.Instruction) {
+		lk, ok := in.(*ssa.Lookup)
+		if !ok {
+			return
+		}
+		if _, isMap := lk.X.Type().Underlying().(*types.Map); !isMap {
+			return
+		}
+		// the looked-up flag decides a value that is stored into an inst
+		var flows func(v ssa.Value, d int) bool
+		flows = func(v ssa.Value, d int) bool {
+			if d > 6 {
+				return false
+			}
+			for _, r := range *v.Referrers() {
+				switch x := r.(type) {
+				case *ssa.If:
+					// control dependence: a phi in a successor region that is stored into an inst
+					near := map[*ssa.BasicBlock]bool{}
+					for _, s1 := range x.Block().Succs {
+						near[s1] = true
+						for _, s2 := range s1.Succs {
+							near[s2] = true
+						}
+					}
+					for b := range near {
+						for _, pi := range b.Instrs {
+							if ph, ok := pi.(*ssa.Phi); ok && flowsToInst(ph, 0) {
+								return true
+							}
+						}
+					}
+				case *ssa.Store:
+					if typeName(x.Addr.Type()) == "pm.inst" {
+						return true
+					}
+				case ssa.Value:
+					if flows(x, d+1) {
+						return true
+					}
+				}
+			}
+			return false
+		}
+		if flows(lk, 0) {
+			marks = true
+		}
+	})
+	c.Sites++
+	c.check(marks, R, "compilePattern:marks-reference-to-open-capture", p.pos(cp.Pos()), "the instruction compiled for %N records whether capture N is still open", "compilePattern does not record, for a back-reference, whether the capture it names is still open: the matcher has only the recorded positions to go by and takes an open capture that starts at offset 0 for an empty one — string.find('aa', '((a)%1)') succeeds instead of 'invalid capture index'")
+	// matcher side: in the opNumber arm a test of Operand2 leads to the error
+	var opNumber int64 = -1
+	if k, ok := pmPkg.Types.Scope().Lookup("opNumber").(*types.Const); ok {
+		if v, ok2 := constant.Int64Val(k.Val()); ok2 {
+			opNumber = v
+		}
+	}
+	reach := reachGiven(vm, func(v ssa.Value) (aval, bool) {
+		if isFieldRead(v, "OpCode") {
+			return aInt(opNumber), true
+		}
+		return aval{}, false
+	})
+	raises := false
+	allInstrs(vm, func(in ssa.Instruction) {
+		iff, ok := in.(*ssa.If)
+		if !ok || !reach[in] {
+			return
+		}
+		dep := false
+		var rec func(v ssa.Value, d int)
+		rec = func(v ssa.Value, d int) {
+			if d > 4 || dep {
+				return
+			}
+			if isFieldRead(v, "Operand2") {
+				dep = true
+				return
+			}
+			if x, ok := v.(ssa.Instruction); ok {
+				for _, op := range x.Operands(nil) {
+					if *op != nil {
+						rec(*op, d+1)
+					}
+				}
+			}
+		}
+		rec(iff.Cond, 0)
+		if !dep {
+			return
+		}
+		for _, s := range iff.Block().Succs {
+			if _, isP := s.Instrs[len(s.Instrs)-1].(*ssa.Panic); isP {
+				raises = true
+			}
+		}
+	})
+	c.Sites++
+	c.check(opNumber >= 0 && raises, R, "recursiveVM:reference-to-open-capture-raises", p.pos(vm.Pos()), "the back-reference instruction raises when it is marked as referring to an open capture", "the matcher's back-reference instruction does not look at the open-capture mark: a reference from inside the capture it names is matched against whatever positions are recorded")
+}
+
+func flowsToInst(v ssa.Value, d int) bool {
+	if d > 4 {
+		return false
+	}
+	for _, r := range *v.Referrers() {
+		switch x := r.(type) {
+		case *ssa.Store:
+			if x.Val == v {
+				if fa, ok := x.Addr.(*ssa.FieldAddr); ok && typeName(fa.X.Type()) == "pm.inst" {
+					return true
+				}
+			}
+		case ssa.Value:
+			if flowsToInst(x, d+1) {
+				return true
+			}
+		}
+	}
+	return false
+}
+
+// isFieldRead: v reads the named field of a struct (value Field, or load through FieldAddr).
+func isFieldRead(v ssa.Value, name string) bool {
+	switch x := v.(type) {
+	case *ssa.Field:
+		st, ok := x.X.Type().Underlying().(*types.Struct)
+		return ok && st.Field(x.Field).Name() == name
+	case *ssa.UnOp:
+		if x.Op == token.MUL {
+			if fa, ok := x.X.(*ssa.FieldAddr); ok {
+				if pt, ok := fa.X.Type().Underlying().(*types.Pointer); ok {
+					if st, ok := pt.Elem().Underlying().(*types.Struct); ok {
+						return st.Field(fa.Field).Name() == name
+					}
+				}
+			}
+		}
+	}
+	return false
 }
